@@ -15,6 +15,10 @@
     lookups_subset_extract_partial choose_identity msg_lookup_extracted identity_transparent_msg
     choose_lookup_extracted choose_outer_text_not_looked_up msg_lookup_extracted_elem
     code_calls_extracted identity_transparent_msg_sub choose_extract_succeeds
+    sub_attrs_not_extracted wide_of_plain identity_transparent_msg_reorder
+    translate_format_id_brackets msg_identity_brackets msg_identity_elem_brackets brackets_of_clean
+    placeholder_text_straddles msg_element_first_child_mismatch
+    code_call_reported code_literal_call_reported code_reported_is_call code_reported_exactly nested_call_was_missed
 -/
 import Genshi.Lemmas.I18nTree
 import Genshi.Lemmas.I18nStarts
@@ -22,9 +26,12 @@ import Genshi.Lemmas.I18nLookups
 import Genshi.Lemmas.I18nChoose
 import Genshi.Lemmas.I18nMsgLookup
 import Genshi.Lemmas.I18nLookups2
+import Genshi.Lemmas.I18nLookups3
 import Genshi.Lemmas.I18nChooseLookup
 import Genshi.Lemmas.I18nCode
+import Genshi.Lemmas.I18nPyExpr
 import Genshi.Lemmas.I18nPassEq
+import Genshi.Lemmas.I18nPassReorder
 import Genshi.Model.I18nExtract
 namespace Genshi.Props.C19
 open Genshi Genshi.I18n
@@ -144,28 +151,109 @@ theorem reorder_is_permutation (ds : List Dir) : (reorder ds).dirs.Perm ds := re
     Full statement: every message id containing a letter that rendering passes to the
     catalogue is among the messages `Translator.extract` reports for the same stream.
     Proved, by a simultaneous induction over `Translator.__call__` and `Translator.extract`
-    with the skip counter shared, for every template stream all of whose message directives
-    are plain `i18n:msg` directives — `<t i18n:msg="ps">content</t>` or
-    `<i18n:msg params="ps">content</i18n:msg>`, the latter neither starting nor ending with an
-    element (finding C19-msg-element-first-child) — with content free of nested directives
-    and a buffer that can be built (`okMsgList`) — and otherwise any nesting of
-    py: directives, i18n:domain / ctxt / comment (including the loops that edit the directive
-    list under their own iterator), ignored tags, xml:lang, any configuration and context:
+    with the skip counter shared, for every template stream (`WideList`) built from
+      * any nesting of py: directives, i18n:domain / ctxt / comment (including the loops that
+        edit the directive list under their own iterator), ignored tags, xml:lang;
+      * message directives `<t i18n:msg="ps" …>content</t>` or `<i18n:msg params="ps">content</i18n:msg>`
+        (the latter neither starting nor ending with an element: finding
+        C19-msg-element-first-child) that may share their element with any other directives
+        (`i18n:comment`, `i18n:ctxt`, `i18n:domain`, `py:if` …: `OneDir`), whose content is any event
+        list — text, expressions, elements, and **directive-carrying elements** (SUB events) that
+        are quiet: no text with a letter and no included attribute value with a letter in them
+        (what the pass looks up there is not extracted: findings C19-fragments, C19-sub-attrs;
+        witnesses `fragments_looked_up_not_extracted`, `sub_attrs_not_extracted`) and no message
+        directive of their own;
+      * plural choices `<t i18n:choose="n; ps" …> pre <ts i18n:singular="">cS</ts> mid
+        <tp i18n:plural="">cP</tp> post </t>` with white space, comments, code blocks outside the
+        branches (finding C19-choose-outer-text, `choose_outer_text_not_looked_up`) and branch
+        contents whose text outside expressions has no letter and whose directive-carrying
+        elements are quiet (findings C19-fragments, C19-sub-attrs);
+      * message buffers that can be built (as many parameters as expressions, balanced content);
+    for any configuration and context:
       * extraction never raises;
       * every id the translation pass looks up (text nodes, included attributes, also the
-        attributes inside messages) is extracted unless it has no letter;
-      * every message id a message directive looks up while rendering (`msgIdsList`; by
-        `msg_lookup_extracted` the stream the directive sees after the pass gives the same id)
-        is extracted.
-    Missing for the full statement: `i18n:choose` (its branches are looked up fragment-wise:
-    finding C19-fragments, witness `fragments_looked_up_not_extracted`; the directive's own
-    look-up: `choose_lookup_extracted`) and message directives with nested directives; the
-    gettext calls made by template code are `code_calls_extracted`. -/
-theorem lookups_subset_extract_partial (cfg : Cfg) (ctx : Ctx) (s : TStream) (h : okMsgList s = true) :
+        attributes inside messages and plural choices) is extracted unless it has no letter;
+      * every message id an `i18n:msg` directive looks up while rendering is extracted
+        (`msgIdsW`: the id of the template's own stream; for content without directive-carrying
+        elements the stream the directive sees after the pass gives the same id for every
+        catalogue, `msg_lookup_extracted`; inside a directive-carrying element the pass hands the
+        letter-free text fragments to the catalogue as well — finding C19-fragments — and the
+        id is the same whenever the catalogue leaves those alone).
+    The pair of ids an `i18n:choose` hands to `ngettext` is `choose_lookup_extracted`; the
+    gettext calls made by template code are `code_calls_extracted`.  The remaining hypotheses
+    are the recorded findings named above, each with its `decide`-checked witness. -/
+theorem lookups_subset_extract_partial (cfg : Cfg) (ctx : Ctx) (s : TStream) (h : WideList cfg s) :
     ∃ ms, extract cfg s = .ok ms ∧
       (∀ l ∈ lookups cfg ctx true true s, hasLetter l.msgid = true → l.msgid ∈ idsOf ms) ∧
-      (∀ id ∈ msgIdsList s, id ∈ idsOf ms) :=
-  lookups_subset_extract_msgs cfg ctx s h
+      (∀ id ∈ msgIdsW s, id ∈ idsOf ms) :=
+  lookups_subset_extract_wide cfg ctx s h
+
+/-- the streams of the first version of the theorem — message directives alone on their
+    element, content without directive-carrying elements (`okMsgList`, decidable) — are among them -/
+theorem wide_of_plain (cfg : Cfg) (s : TStream) (h : okMsgList s = true) : WideList cfg s :=
+  wide_of_okMsgList cfg s h
+
+/-- `<p i18n:comment="c" i18n:msg="n" py:if="x">Hi <b py:if="y" title="1">${n} 2</b>!</p>`:
+    the message shares its element with two other directives, its content holds a
+    directive-carrying element (quiet: `2`, `title="1"`); the id looked up is extracted -/
+example :
+    WideList Cfg.default
+      [.sub [.comment ['c'], .msg [['n']], .other ['i','f']]
+        [.start ⟨[], ['p']⟩ [], .text ['H','i',' '],
+         .sub [.other ['i','f']] [.start ⟨[], ['b']⟩ [(⟨[], ['t','i','t','l','e']⟩, .str ['1'])], .expr 0 [], .text [' ','2'], .end_ ⟨[], ['b']⟩],
+         .text ['!'], .end_ ⟨[], ['p']⟩]] ∧
+    msgIdsW
+      [.sub [.comment ['c'], .msg [['n']], .other ['i','f']]
+        [.start ⟨[], ['p']⟩ [], .text ['H','i',' '],
+         .sub [.other ['i','f']] [.start ⟨[], ['b']⟩ [(⟨[], ['t','i','t','l','e']⟩, .str ['1'])], .expr 0 [], .text [' ','2'], .end_ ⟨[], ['b']⟩],
+         .text ['!'], .end_ ⟨[], ['p']⟩]] = [['H','i',' ','[','1',':','%','(','n',')','s',' ','2',']','!']] := by
+  refine ⟨⟨Or.inl ⟨[['n']], ⟨by decide, by decide⟩, Or.inl ?_⟩, trivial⟩, by decide +kernel⟩
+  obtain ⟨B, hB⟩ := ok_of_isOk (x := mbAppendList (MB.new [['n']])
+    [.text ['H','i',' '],
+     .sub [.other ['i','f']] [.start ⟨[], ['b']⟩ [(⟨[], ['t','i','t','l','e']⟩, .str ['1'])], .expr 0 [], .text [' ','2'], .end_ ⟨[], ['b']⟩],
+     .text ['!']]) (by decide +kernel)
+  exact ⟨_, _, _, .end_ ⟨[], ['p']⟩, B, rfl, by decide +kernel, rfl, by decide +kernel, hB⟩
+
+/-- `<div i18n:choose="n; n" i18n:domain="d"> <p i18n:singular="" title="One">1 ${n}</p> <!-- c -->
+    <p i18n:plural="">${n} <b py:if="c">2</b></p> </div>`: a plural choice inside the induction;
+    the pass looks up `One` (attribute), `1` and `2` (fragments without letter) -/
+example :
+    WideList Cfg.default
+      [.sub [.domain ['d'], .choose [['n']]]
+        (.start ⟨[], ['d']⟩ [] :: (([.text [' ']] ++
+          .sub [.singular] (.start ⟨[], ['p']⟩ [(⟨[], ['t','i','t','l','e']⟩, .str ['O','n','e'])] ::
+              ([.text ['1',' '], .expr 0 []] ++ [.end_ ⟨[], ['p']⟩])) ::
+          ([.text [' '], .other ['c'], .text [' ']] ++
+          .sub [.plural] (.start ⟨[], ['p']⟩ [] :: ([.expr 0 [], .text [' '],
+              .sub [.other ['i','f']] [.start ⟨[], ['b']⟩ [], .text ['2'], .end_ ⟨[], ['b']⟩]] ++ [.end_ ⟨[], ['p']⟩])) ::
+          [.text [' ']])) ++ [.end_ ⟨[], ['d']⟩]))] ∧
+    (lookups Cfg.default [] true true
+      [.sub [.domain ['d'], .choose [['n']]]
+        (.start ⟨[], ['d']⟩ [] :: (([.text [' ']] ++
+          .sub [.singular] (.start ⟨[], ['p']⟩ [(⟨[], ['t','i','t','l','e']⟩, .str ['O','n','e'])] ::
+              ([.text ['1',' '], .expr 0 []] ++ [.end_ ⟨[], ['p']⟩])) ::
+          ([.text [' '], .other ['c'], .text [' ']] ++
+          .sub [.plural] (.start ⟨[], ['p']⟩ [] :: ([.expr 0 [], .text [' '],
+              .sub [.other ['i','f']] [.start ⟨[], ['b']⟩ [], .text ['2'], .end_ ⟨[], ['b']⟩]] ++ [.end_ ⟨[], ['p']⟩])) ::
+          [.text [' ']])) ++ [.end_ ⟨[], ['d']⟩]))]).map Lookup.msgid = [['O','n','e'], ['1'], ['2']] := by
+  refine ⟨⟨Or.inr (Or.inl ⟨[['n']], ⟨by decide, by decide⟩, ?_⟩), trivial⟩, by decide +kernel⟩
+  obtain ⟨C, hC, hCs⟩ := ok_stack_of_isOk (x := mbAppendList (MB.new [['n']]) [.text ['1',' '], .expr 0 []]) (by decide +kernel)
+  obtain ⟨D, hD, hDs⟩ := ok_stack_of_isOk (x := mbAppendList (MB.new [['n']]) [.expr 0 [], .text [' '],
+      .sub [.other ['i','f']] [.start ⟨[], ['b']⟩ [], .text ['2'], .end_ ⟨[], ['b']⟩]]) (by decide +kernel)
+  exact ⟨_, _, _, _, _, _, _, _, _, _, _, _, _, _, C, D, rfl, by decide, by decide, by decide,
+    by decide +kernel, by decide +kernel, hC, hD, hCs, hDs⟩
+
+/-- C19-sub-attrs: the `title` of a directive-carrying element inside a message is looked up by
+    the pass but not extracted (`MsgDirective.extract` looks at the START events of the top
+    level of its sub-stream only): the quietness hypothesis on such elements cannot be dropped. -/
+theorem sub_attrs_not_extracted :
+    (lookups Cfg.default [] true true [.sub [.msg []] [.start ⟨[], ['p']⟩ [], .text ['a',' '],
+      .sub [.other ['i','f']] [.start ⟨[], ['b']⟩ [(⟨[], ['t','i','t','l','e']⟩, .str ['F','o','o'])], .text ['1'], .end_ ⟨[], ['b']⟩],
+      .end_ ⟨[], ['p']⟩]]).map Lookup.msgid = [['F','o','o'], ['1']] ∧
+    extract Cfg.default [.sub [.msg []] [.start ⟨[], ['p']⟩ [], .text ['a',' '],
+      .sub [.other ['i','f']] [.start ⟨[], ['b']⟩ [(⟨[], ['t','i','t','l','e']⟩, .str ['F','o','o'])], .text ['1'], .end_ ⟨[], ['b']⟩],
+      .end_ ⟨[], ['p']⟩]] = .ok [⟨none, .one (some ['a',' ','[','1',':','1',']']), []⟩] := by
+  refine ⟨by decide +kernel, by decide +kernel⟩
 
 example : okMsgList
     [.start ⟨[], ['d']⟩ [], .text ['H','i'],
@@ -201,6 +289,15 @@ example :
       [['H','i',' ','[','1',':','x',']',' ','%','(','n',')','s']] := by
   refine ⟨by decide +kernel, by decide +kernel⟩
 
+/-- C19-msg-element-first-child: `<i18n:msg><b>x</b> y</i18n:msg>` — the element form takes a
+    leading element for its own start tag: rendering looks up `x y`, extraction reports `x`; the
+    hypothesis of `GoodMsg` on the first event of the element form cannot be dropped. -/
+theorem msg_element_first_child_mismatch :
+    msgId [] [.start ⟨[], ['b']⟩ [], .text ['x'], .end_ ⟨[], ['b']⟩, .text [' ','y']] = .ok (some ['x',' ','y']) ∧
+    msgExtract Cfg.default [] true [] [] [.start ⟨[], ['b']⟩ [], .text ['x'], .end_ ⟨[], ['b']⟩, .text [' ','y']] =
+      .ok [⟨none, .one (some ['x']), []⟩] := by
+  refine ⟨by decide +kernel, by decide +kernel⟩
+
 /-- **lookups_subset_extract, gettext calls made by template code.**  For every stream as in
     `lookups_subset_extract_partial` (any nesting of py: directives, i18n:domain / ctxt /
     comment, excluded elements; message directives plain): extraction never raises and reports
@@ -232,6 +329,75 @@ example :
        .expr 1 [⟨['_'], .one (some ['S'])⟩], .end_ ⟨[], ['s','c','r','i','p','t']⟩] =
       [⟨['_'], .one (some ['W'])⟩, ⟨['_'], .one (some ['T'])⟩, ⟨['_'], .one (some ['A'])⟩, ⟨['_'], .one (some ['S'])⟩] := by
   refine ⟨by decide +kernel, by decide +kernel⟩
+
+
+/-! ### `extract_from_code`: what an EXPR / EXEC event carries
+
+`code_calls_extracted` takes the list an expression carries as given; the theorems below are
+about the function that computes it (model `extractFromCode` over the syntax tree `PyExpr`,
+`Genshi/Model/I18nPyExpr.lean`, compared with the real `extract_from_code` on the trees genshi
+builds: correspondence stream `pycode`). -/
+
+/-- **every gettext call of the code is reported** (`extract_from_code`, as repaired by fix
+    fbd47f1): a call `f(args…, kw=…)` of a plain name `f` among the gettext functions,
+    occurring ANYWHERE in the expression or code block — also inside the arguments of another
+    gettext call — is reported as `(f, strings)` with one entry per positional argument: the
+    text of a string (or utf-8 bytes) literal, `None` for anything else; a single entry bare,
+    otherwise a tuple. -/
+theorem code_call_reported (gf : List Str) (e : PyExpr) (f : Str) (args kws : List PyExpr)
+    (hs : SubExpr (.call (.name f) args kws) e) (hf : f ∈ gf) :
+    ⟨f, argVal args⟩ ∈ extractFromCode gf e :=
+  Genshi.I18n.code_call_reported gf e f args kws hs hf
+
+/-- `ngettext('a', 'b', len(_('U')))`: the inner call is a sub-expression and `_` a gettext function -/
+example : SubExpr (.call (.name ['_']) [.str ['U']] [])
+      (.call (.name ['n','g','e','t','t','e','x','t'])
+        [.str ['a'], .str ['b'], .call (.name ['l','e','n']) [.call (.name ['_']) [.str ['U']] []] []] []) ∧
+    ['_'] ∈ Gen.I18n.gettextFunctions ∧ argVal [.str ['U']] = .one (some ['U']) :=
+  ⟨SubExpr.arg _ _ (a := .call (.name ['l','e','n']) [.call (.name ['_']) [.str ['U']] []] []) (by simp)
+     (SubExpr.arg _ _ (List.mem_singleton.2 rfl) (SubExpr.refl _)), by decide, by decide⟩
+
+/-- … and when all positional arguments are string literals the reported value holds exactly
+    those strings, in order. -/
+theorem code_literal_call_reported (gf : List Str) (e : PyExpr) (f : Str) (ss : List Str)
+    (kws : List PyExpr) (hs : SubExpr (.call (.name f) (literalArgs ss) kws) e) (hf : f ∈ gf) :
+    ⟨f, match ss with | [s] => .one (some s) | _ => .many (ss.map some)⟩ ∈ extractFromCode gf e :=
+  Genshi.I18n.code_literal_call_reported gf e f ss kws hs hf
+
+example : extractFromCode Gen.I18n.gettextFunctions
+    (.call (.name ['n','g','e','t','t','e','x','t']) (literalArgs [['a'], ['b']]) [.name ['n']]) =
+    [⟨['n','g','e','t','t','e','x','t'], .many [some ['a'], some ['b']]⟩] := by decide
+
+/-- **nothing else is reported**: every reported pair is the report of a call of one of the
+    gettext functions that occurs in the code. -/
+theorem code_reported_is_call (gf : List Str) (e : PyExpr) (m : CodeMsg)
+    (h : m ∈ extractFromCode gf e) :
+    ∃ args kws, SubExpr (.call (.name m.func) args kws) e ∧ m.func ∈ gf ∧ m.val = argVal args :=
+  Genshi.I18n.code_reported_is_call gf e m h
+
+example : (⟨['_'], .many []⟩ : CodeMsg) ∈
+    extractFromCode Gen.I18n.gettextFunctions (.node [.call (.name ['_']) [] [], .call (.name ['l','e','n']) [.str ['x']] []]) := by
+  decide
+
+/-- the exact answer: the calls of the gettext functions in source order (a call before the
+    calls inside it), one report per call. -/
+theorem code_reported_exactly (gf : List Str) (e : PyExpr) :
+    extractFromCode gf e = (gettextCalls gf e).map callReport :=
+  Genshi.I18n.extractFromCode_eq_gettextCalls gf e
+
+example : (gettextCalls Gen.I18n.gettextFunctions nestedExample).map Prod.fst =
+    [['n','g','e','t','t','e','x','t'], ['_']] := by decide
+
+/-- fix fbd47f1 documented: before it (`elif node._fields:`) the walk stopped at a gettext call
+    and `_('Unknown')` in `ngettext('one', 'many', len(_('Unknown')))` was not reported. -/
+theorem nested_call_was_missed :
+    (⟨['_'], .one (some ['U','n','k','n','o','w','n'])⟩ : CodeMsg) ∉
+        extractFromCodeOld Gen.I18n.gettextFunctions nestedExample ∧
+    SubExpr (.call (.name ['_']) [.str ['U','n','k','n','o','w','n']] []) nestedExample ∧
+    extractFromCode Gen.I18n.gettextFunctions nestedExample =
+      [⟨['n','g','e','t','t','e','x','t'], .many [some ['o','n','e'], some ['m','a','n','y'], none]⟩,
+       ⟨['_'], .one (some ['U','n','k','n','o','w','n'])⟩] :=
+  Genshi.I18n.nested_call_was_missed
 
 /-- **lookups_subset_extract, message directives.**  For `<t i18n:msg="ps">content</t>` whose
     content holds no nested directive — any events otherwise, any catalogue, context and skip
@@ -351,7 +517,9 @@ theorem choose_outer_text_not_looked_up :
 /-! ## the message format: `parse_msg`, `MessageBuffer`, `MsgDirective` -/
 
 /-- **parse_msg ∘ format**: parsing the linearisation `s0 [n₁:…] seg₁ …` of any translation
-    tree whose text segments hold no bracket and no backslash yields exactly its parts
+    tree whose text segments are plain (`plainSeg`: every bracket is escaped `\[` / `\]`, every
+    backslash escapes a bracket, no `\[<digits>:` — in particular segments without bracket and
+    backslash, `plainSeg_of_bare`) yields exactly its parts
     `(level, text)`, in order (empty parts are kept inside placeholders and dropped at the
     top level, as `parse_msg` does). -/
 theorem parse_format (s0 : Str) (r : XRest) (h0 : plainSeg s0 = true) (h : r.plain = true) :
@@ -491,6 +659,69 @@ theorem translate_format_id (F : List MNode) (extra : List Str)
       b.translate b.format = .ok (coalesce (flattenM (trimF F))) :=
   translate_format_self F extra hc hna hnd hso
 
+/-- **translate_format_id, brackets in the text.**  `MessageBuffer.append` escapes the brackets
+    of the text (`see [here]` is filed as `see \[here\]`), `parse_msg` leaves escaped brackets
+    alone and `yield_parts` removes the backslashes again: the identity holds for text with
+    brackets as well (`cleanB`: no backslash, no percent sign) **provided the message string
+    holds no `\[<digits>:`** (`segsOK`, a condition on the segments of the whole `format()`
+    string: `parse_msg` takes `\[12:` for a placeholder in spite of the backslash — finding
+    C19-placeholder-text — and the digits and the colon may come from different text events,
+    witness `placeholder_text_straddles`). -/
+theorem translate_format_id_brackets (F : List MNode) (extra : List Str)
+    (hc : cleanB F = true) (hsg : segsOK (trimF F) = true)
+    (hna : deepNoAdjM F = true) (hnd : (namesM F).Nodup) (hso : subsOKM false F = true) :
+    ∃ b, mbAppendList (MB.new (namesM F ++ extra)) (flattenM F) = .ok b ∧
+      b.translate b.format = .ok (coalesce (flattenM (trimF F))) :=
+  translate_format_selfB F extra hc hsg hna hnd hso
+
+/-- … and `MsgDirective.__call__` under the identity catalogue, attribute and element form -/
+theorem msg_identity_brackets (t : QName) (a : TAttrs) (F : List MNode) (extra : List Str)
+    (hc : cleanB F = true) (hsg : segsOK (trimF F) = true)
+    (hna : deepNoAdjM F = true) (hnd : (namesM F).Nodup) (hso : subsOKM false F = true) :
+    msgGenerate (namesM F ++ extra) (fun s => s) (.start t a :: (flattenM F ++ [.end_ t])) =
+      .ok (.start t a :: (coalesce (flattenM (trimF F)) ++ [.end_ t])) :=
+  msgGenerate_identity_attrB t a F extra hc hsg hna hnd hso
+
+theorem msg_identity_elem_brackets (n : MNode) (mid : List MNode) (l : MNode) (extra : List Str)
+    (hn : n.isElem = false) (hl : l.isElem = false)
+    (hc : cleanB (n :: (mid ++ [l])) = true) (hsg : segsOK (trimF (n :: (mid ++ [l]))) = true)
+    (hna : deepNoAdjM (n :: (mid ++ [l])) = true)
+    (hnd : (namesM (n :: (mid ++ [l]))).Nodup) (hso : subsOKM false (n :: (mid ++ [l])) = true) :
+    msgGenerate (namesM (n :: (mid ++ [l])) ++ extra) (fun s => s) (flattenM (n :: (mid ++ [l]))) =
+      .ok (coalesce (flattenM (trimF (n :: (mid ++ [l]))))) :=
+  msgGenerate_identity_elemB n mid l extra hn hl hc hsg hna hnd hso
+
+/-- the bracket-free hypothesis of `translate_format_id` is a special case -/
+theorem brackets_of_clean (F : List MNode) (h : cleanM F = true) : cleanB F = true ∧ segsOK (trimF F) = true :=
+  ⟨cleanB_of_cleanM F h, segsOK_of_cleanM _ (cleanM_trimF F h)⟩
+
+/-- `<p i18n:msg="n"> see [here] and <b>a[${n}]</b> [12 </p>`: the hypotheses hold (the message
+    string is `see \[here\] and [1:a\[%(n)s\]] \[12`) and the model returns the content -/
+example :
+    cleanB [.text [' ','s','e','e',' ','[','h','e','r','e',']',' ','a','n','d',' '],
+            .elem none ⟨[], ['b']⟩ [] [.text ['a','['], .expr ['n'] 0 [], .text [']']], .text [' ','[','1','2',' ']] = true ∧
+    segsOK (trimF [.text [' ','s','e','e',' ','[','h','e','r','e',']',' ','a','n','d',' '],
+            .elem none ⟨[], ['b']⟩ [] [.text ['a','['], .expr ['n'] 0 [], .text [']']], .text [' ','[','1','2',' ']]) = true ∧
+    msgGenerate [['n']] (fun s => s)
+      [.start ⟨[], ['p']⟩ [], .text [' ','s','e','e',' ','[','h','e','r','e',']',' ','a','n','d',' '],
+       .start ⟨[], ['b']⟩ [], .text ['a','['], .expr 0 [], .text [']'], .end_ ⟨[], ['b']⟩, .text [' ','[','1','2',' '],
+       .end_ ⟨[], ['p']⟩] =
+    .ok [.start ⟨[], ['p']⟩ [], .text ['s','e','e',' ','[','h','e','r','e',']',' ','a','n','d',' '],
+       .start ⟨[], ['b']⟩ [], .text ['a','['], .expr 0 [], .text [']'], .end_ ⟨[], ['b']⟩, .text [' ','[','1','2'],
+       .end_ ⟨[], ['p']⟩] := by
+  refine ⟨by decide +kernel, by decide +kernel, by decide +kernel⟩
+
+/-- C19-placeholder-text, straddling two text events: `a [12` and `:x] b` are harmless on their
+    own (`segsOK` holds for each), together the message string holds `\[12:` — `segsOK` fails and
+    rendering raises KeyError: the condition has to look at the whole `format()` string. -/
+theorem placeholder_text_straddles :
+    segsOK (trimF [.text ['a',' ','[','1','2']]) = true ∧ segsOK (trimF [.text [':','x',']',' ','b']]) = true ∧
+    segsOK (trimF [.text ['a',' ','[','1','2'], .text [':','x',']',' ','b']]) = false ∧
+    msgGenerate [] (fun s => s)
+      [.start ⟨[], ['p']⟩ [], .text ['a',' ','[','1','2'], .text [':','x',']',' ','b'], .end_ ⟨[], ['p']⟩] =
+    .error .keyError := by
+  refine ⟨by decide +kernel, by decide +kernel, by decide +kernel, by decide +kernel⟩
+
 /-- **identity_transparent, message directive in attribute form** (`<p i18n:msg="…">`):
     under the identity catalogue `MsgDirective.__call__` returns its element with the content
     unchanged up to the white space at the edges of the message (and the chunking of text). -/
@@ -581,6 +812,44 @@ example :
       (flattenM [.text [' ','H','i',',',' '], .elem (some [.other ['i','f']]) ⟨[], ['b']⟩ [] [.expr ['n'] 0 []], .text ['!',' ']] ++
         [.end_ ⟨[], ['p']⟩])) = true := by
   refine ⟨by decide +kernel, by decide +kernel⟩
+
+/-- **identity_transparent, pass and directive together, `i18n:domain` / `i18n:ctxt` on
+    directive-carrying elements.**  As `identity_transparent_msg_sub` without the restriction
+    on the directives: an element inside the message may carry `i18n:domain`, `i18n:ctxt` next to
+    its other directives.  The pass moves those to the front of the directive list of the SUB
+    event (`reordM` applies `reorder` to every list — a permutation: `reorder_is_permutation`)
+    and changes nothing else; every hypothesis of `msg_identity_attr` is blind to that order, so
+    the directive returns the content with the re-ordered lists, unchanged up to the white space
+    at the edges of the message and the chunking of text.  Stated for messages without excluded
+    elements (`noExclList`: inside `ignore_tags` / literal `xml:lang` elements the pass does not
+    re-order; that case without domain / context is `identity_transparent_msg_sub`). -/
+theorem identity_transparent_msg_reorder (cfg : Cfg) (ctx : Ctx) (ta : Bool) (t : QName) (a : TAttrs) (F : List MNode)
+    (extra : List Str) (hc : cleanM F = true) (hna : deepNoAdjM F = true) (hnd : (namesM F).Nodup)
+    (hso : subsOKM false F = true)
+    (hx : noExclList cfg (.start t a :: (flattenM F ++ [.end_ t])) = true)
+    (hattr : cleanList cfg (.start t a :: (flattenM F ++ [.end_ t])) = true) :
+    msgGenerate (namesM F ++ extra) (fun s => s)
+        (trList cfg Catalog.id ctx false ta 0 (.start t a :: (flattenM F ++ [.end_ t]))) =
+      .ok (.start t a :: (coalesce (flattenM (trimF (reordM F))) ++ [.end_ t])) :=
+  pass_then_msg_identity_reord cfg ctx ta t a F extra hc hna hnd hso hx hattr
+
+/-- `<p i18n:msg="n"> Hi, <b py:if="c" i18n:ctxt="m" i18n:domain="d">${n}</b>! </p>`: the
+    hypotheses hold; the pass puts domain and context first, the directive keeps the element -/
+example :
+    cleanM [.text [' ','H','i',',',' '], .elem (some [.other ['i','f'], .ctxt ['m'], .domain ['d']]) ⟨[], ['b']⟩ [] [.expr ['n'] 0 []], .text ['!',' ']] = true ∧
+    subsOKM false [.text [' ','H','i',',',' '], .elem (some [.other ['i','f'], .ctxt ['m'], .domain ['d']]) ⟨[], ['b']⟩ [] [.expr ['n'] 0 []], .text ['!',' ']] = true ∧
+    noExclList Cfg.default (.start ⟨[], ['p']⟩ [] ::
+      (flattenM [.text [' ','H','i',',',' '], .elem (some [.other ['i','f'], .ctxt ['m'], .domain ['d']]) ⟨[], ['b']⟩ [] [.expr ['n'] 0 []], .text ['!',' ']] ++
+        [.end_ ⟨[], ['p']⟩])) = true ∧
+    cleanList Cfg.default (.start ⟨[], ['p']⟩ [] ::
+      (flattenM [.text [' ','H','i',',',' '], .elem (some [.other ['i','f'], .ctxt ['m'], .domain ['d']]) ⟨[], ['b']⟩ [] [.expr ['n'] 0 []], .text ['!',' ']] ++
+        [.end_ ⟨[], ['p']⟩])) = true ∧
+    coalesce (flattenM (trimF (reordM
+      [.text [' ','H','i',',',' '], .elem (some [.other ['i','f'], .ctxt ['m'], .domain ['d']]) ⟨[], ['b']⟩ [] [.expr ['n'] 0 []], .text ['!',' ']]))) =
+      [.text ['H','i',',',' '],
+       .sub [.domain ['d'], .ctxt ['m'], .other ['i','f']] [.start ⟨[], ['b']⟩ [], .expr 0 [], .end_ ⟨[], ['b']⟩],
+       .text ['!']] := by
+  refine ⟨by decide +kernel, by decide +kernel, by decide +kernel, by decide +kernel, by decide +kernel⟩
 
 /-- **identity_transparent, plural choice** (`ChooseDirective.__call__` with
     `ChooseBranchDirective.__call__`).  For `pre <ts i18n:singular>Fs</ts> mid
